@@ -391,6 +391,7 @@ func (x *Exec) registerLib() {
 		"(github.com/cosmos72/gomacro/xreflect.Type).ReflectType",
 		"(github.com/cosmos72/gomacro/xreflect.Type).IdenticalTo",
 		"(github.com/cosmos72/gomacro/xreflect.Type).Comparable",
+		"(github.com/cosmos72/gomacro/xreflect.Type).AssignableTo",
 		"(github.com/cosmos72/gomacro/xreflect.Type).Name",
 		"(github.com/cosmos72/gomacro/xreflect.Type).NumMethod",
 		"github.com/cosmos72/gomacro/xreflect.ZeroR",
